@@ -26,6 +26,7 @@ proof fn vacuity_pre(i: v1::Instance, id: u64) requires rem_wf(i.removed_constra
 ''', 'vacuity: lemma premises')
     asm.raw(common.FOOTER)
     return dict(
+        composes_with={'C05': ['Instance::evaluate', 'Constraint::evaluate', 'RemovedConstraint::evaluate', 'EvaluatedConstraint::is_feasible']},
         min_items=6,
         trusted_base=common.TRUSTED_COMMON + common.T4_COLLECTIONS + [
             'T4: Iterator::position on a slice iterator = first index whose element satisfies the closure (helper iter_position, stated over the closure ensures)',
